@@ -11,6 +11,10 @@
 //   OverBudgetIsPrivate enforce mode: an over-budget SERVFAIL (+EDE for EDNS clients) is not
 //                       what a second client with a fresh budget is served from cache
 //   ShadowEqualsOff     shadow replies (rcode, answer set) equal firewall-off replies
+// IPv6 access is a configuration dimension (Case.IPv6 = the model's v6): every referral
+// then starts a detached nameserver-enrichment job that outlives the reply. For those
+// cases one request tree is counted until the resolver instance has no detached helper job
+// left (overlay accessor VerifC12Detached), and WithinBudget is judged on that total.
 // Everything else (model predicted "answer" but the code says SERVFAIL, packet counts
 // different from the model's) is drift.
 package c12topo
@@ -25,11 +29,13 @@ import (
 	"sort"
 	"strings"
 	"sync"
+	"sync/atomic"
 	"testing"
 	"time"
 
 	"github.com/miekg/dns"
 	"github.com/semihalev/sdns/config"
+	"github.com/semihalev/sdns/middleware/resolver"
 	"github.com/semihalev/sdns/server"
 	"github.com/semihalev/sdns/verifharness/authkit"
 	"github.com/semihalev/sdns/verifharness/pipe"
@@ -85,6 +91,10 @@ type Case struct {
 	Variants []Variant `json:"variants"`
 	Exp      string    `json:"exp"` // model prediction for firewall-off: answer | servfail | any
 	Stress   *Stress   `json:"stress"`
+	// IPv6 = ipv6access on (ResolveWork.tla v6): detached AAAA lookups for the NS hosts of every
+	// referral, two seconds after the referral. The variants of such a case run concurrently
+	// (each on its own namespace and resolver), so the delay is paid once per case.
+	IPv6 bool `json:"ipv6"`
 }
 
 type Input struct {
@@ -93,6 +103,7 @@ type Input struct {
 	QueryTimeoutMs int    `json:"queryTimeoutMs"`
 	NetTimeoutMs   int    `json:"netTimeoutMs"`
 	MarginMs       int    `json:"marginMs"`
+	TreeMs         int    `json:"treeMs"` // IPv6 cases: longest wait for the detached helper jobs of one request tree
 }
 
 const genLabels = 40
@@ -118,12 +129,15 @@ type world struct {
 	refuse *authkit.Server
 	nodes  []Node
 	mu     sync.Mutex
-	gen    map[string]int // REFGEN zone -> labels of the deepest cut handed out (under mu)
+	gen    map[string]int  // REFGEN zone -> labels of the deepest cut handed out (under mu)
 	isGen  map[string]bool // REFGEN zones (immutable after build)
 	fan    map[string]int
 	self   map[string]net.IP
 	stress *Stress
 	bogus  map[string]*authkit.Key
+	hosts  map[string]bool // every NS host name and goal name of the namespace (immutable after build)
+	gone   atomic.Bool     // the run is over: nothing of this resolver may reach another namespace's sockets
+	jobs   func() int      // detached helper jobs still running in this namespace's resolver (IPv6 cases)
 }
 
 func suffixLabels(name string, k int) string {
@@ -140,7 +154,11 @@ func build(c *Case) (*world, error) {
 		return nil, err
 	}
 	w := &world{n: n, nodes: c.Nodes, gen: map[string]int{}, isGen: map[string]bool{}, fan: map[string]int{}, self: map[string]net.IP{}, stress: c.Stress,
-		bogus: map[string]*authkit.Key{}}
+		bogus: map[string]*authkit.Key{}, hosts: map[string]bool{"ns.test.": true, "ns.sink.test.": true}}
+	for i := 1; i <= len(c.Nodes); i++ {
+		w.hosts["ns."+zoneName(i)] = true
+		w.hosts[strings.ToLower(nodeName(c.Nodes, i))] = true
+	}
 	opts := authkit.DelegateOpts{Signed: c.Signed, PublishDS: c.Signed}
 	tz, _, err := n.Delegate("test.", opts)
 	if err != nil {
@@ -377,6 +395,13 @@ type reply struct {
 	Packets int      `json:"packets"`
 	TCP     int      `json:"tcp"`
 	Hops    int      `json:"hops"`
+	// IPv6 cases: the request tree is counted until its detached helper jobs are over
+	After      int      `json:"after,omitempty"`  // of Packets: received after the client had its reply
+	SubQ       int      `json:"subq,omitempty"`   // distinct address questions for known host names other than the client's own
+	SubQAt     int      `json:"subqAt,omitempty"` // of SubQ: already seen when the client had its reply
+	SubQs      []string `json:"subqs,omitempty"`
+	TreeMs     int64    `json:"treeMs,omitempty"` // until no detached helper job was left
+	Unfinished bool     `json:"unfinished,omitempty"`
 }
 
 func (r reply) sig() string { return r.Rcode + "|" + strings.Join(r.Answers, ";") }
@@ -404,13 +429,26 @@ func (r *runner) detail(c *Case, v Variant, o variantOut) {
 	r.dmu.Unlock()
 }
 
+const blackHole = "127.0.0.1:9"
+
 func (r *runner) newResolver(w *world, c *Case, v Variant, dir string) (*server.Server, *config.Config) {
 	var keys []string
 	if c.Signed {
 		keys = []string{w.n.Root.Keys[0].RR.String()}
 	}
-	return pipe.NewResolverServer(pipe.ResolverOpts{RootAddr: w.n.RootSrv.Addr, RootKeys: keys, DNSSEC: c.Signed, Dir: dir, Mapper: w.n.Mapper(),
+	mapper := w.n.Mapper()
+	if c.IPv6 {
+		inner := mapper
+		mapper = func(addr string) string {
+			if w.gone.Load() {
+				return blackHole
+			}
+			return inner(addr)
+		}
+	}
+	return pipe.NewResolverServer(pipe.ResolverOpts{RootAddr: w.n.RootSrv.Addr, RootKeys: keys, DNSSEC: c.Signed, Dir: dir, Mapper: mapper,
 		Mutate: func(cfg *config.Config) {
+			cfg.IPv6Access = c.IPv6
 			cfg.RecursionFirewall.Mode = config.RecursionFirewallMode(v.Mode)
 			cfg.RecursionFirewall.MaxOutboundQueries = v.MaxOut
 			cfg.RecursionFirewall.MaxInternalQueries = v.MaxInt
@@ -493,6 +531,57 @@ func (w *world) settle(since time.Time, max time.Duration, first bool) (int, int
 	return w.count(since)
 }
 
+// treeDone waits (bounded) until this namespace's resolver has no detached helper job left: only
+// then is the request tree of the query just answered finished. The IPv6 enrichment slots are taken
+// synchronously while the request (or the parent job) is still running, so zero is not a gap between
+// two jobs; a probe takes its slot from its own goroutine, hence two idle polls and the settle after.
+func (w *world) treeDone(max time.Duration) bool {
+	stop := time.Now().Add(max)
+	idle := 0
+	for time.Now().Before(stop) {
+		if w.jobs() == 0 {
+			if idle++; idle >= 2 {
+				return true
+			}
+		} else {
+			idle = 0
+		}
+		time.Sleep(25 * time.Millisecond)
+	}
+	return false
+}
+
+// treeCount splits what the servers received for one request tree at the moment the client had its
+// reply, and lists the distinct address questions (A / AAAA for an NS host or goal name of the
+// namespace) other than the client's own: each of them reached the servers only through an internal
+// sub-query of its own (nameserver-address lookup or alias chase through Queryer.Query).
+func (w *world) treeCount(since, replyAt time.Time, qname string, qtype uint16) (after int, subqs []string, subqAt int) {
+	seen := map[string]bool{}
+	early := map[string]bool{}
+	for _, e := range w.n.LogAll() {
+		if e.At.Before(since) || background(e) {
+			continue
+		}
+		if e.At.After(replyAt) {
+			after++
+		}
+		name := strings.ToLower(e.Q.Name)
+		if (e.Q.Qtype != dns.TypeA && e.Q.Qtype != dns.TypeAAAA) || !w.hosts[name] || (name == strings.ToLower(qname) && e.Q.Qtype == qtype) {
+			continue
+		}
+		k := name + " " + dns.TypeToString[e.Q.Qtype]
+		seen[k] = true
+		if !e.At.After(replyAt) {
+			early[k] = true
+		}
+	}
+	for k := range seen {
+		subqs = append(subqs, k)
+	}
+	sort.Strings(subqs)
+	return after, subqs, len(early)
+}
+
 func (r *runner) ask(s *server.Server, w *world, qname string, qtype uint16, v Variant, client string, first bool) (reply, bool) {
 	q := new(dns.Msg)
 	q.SetQuestion(qname, qtype)
@@ -511,8 +600,18 @@ func (r *runner) ask(s *server.Server, w *world, qname string, qtype uint16, v V
 		hung = true
 	}
 	rep := reply{Ms: time.Since(start).Milliseconds()}
+	replyAt := time.Now()
+	if w.jobs != nil && !hung {
+		// IPv6 access: the tree is not finished before its detached helper jobs are
+		rep.Unfinished = !w.treeDone(time.Duration(r.in.TreeMs) * time.Millisecond)
+		rep.TreeMs = time.Since(start).Milliseconds()
+	}
 	settleMax := time.Duration(r.in.NetTimeoutMs)*time.Millisecond + 900*time.Millisecond
 	rep.Packets, rep.TCP = w.settle(start, settleMax, first)
+	if w.jobs != nil {
+		rep.After, rep.SubQs, rep.SubQAt = w.treeCount(start, replyAt, qname, qtype)
+		rep.SubQ = len(rep.SubQs)
+	}
 	if hung || m == nil {
 		return rep, hung
 	}
@@ -563,6 +662,22 @@ func (r *runner) runVariant(c *Case, v Variant) (variantOut, error) {
 	dir, _ := os.MkdirTemp(vh.Scratch(r.t), "c12topo-")
 	defer os.RemoveAll(dir)
 	s, _ := r.newResolver(w, c, v, dir)
+	if c.IPv6 {
+		for _, h := range s.VerifC12Handlers() {
+			if rh, ok := h.(interface{ VerifResolver() *resolver.Resolver }); ok {
+				w.jobs = rh.VerifResolver().VerifC12Detached
+			}
+		}
+		if w.jobs == nil {
+			out.Skip = "resolver handler not found in the server's pipeline"
+			return out, nil
+		}
+		// runs before the namespace is stopped: no helper job may outlive its own namespace
+		defer func() {
+			w.treeDone(8 * time.Second)
+			w.gone.Store(true)
+		}()
+	}
 	if !r.waitPrimed(w, c.Signed, dir) {
 		out.Skip = "start-up traffic not observed"
 		return out, nil
@@ -615,6 +730,31 @@ func (r *runner) runCase(c *Case) {
 	outs := map[string]variantOut{}
 	offOf := map[string]variantOut{}
 	var order []string
+	// IPv6 cases: every variant waits out the two-second start delay of the detached jobs, so they run
+	// side by side (own namespace, own resolver instance each; no budget is relative to another run)
+	type preRun struct {
+		o   variantOut
+		err error
+	}
+	pre := map[int]*preRun{}
+	if c.IPv6 {
+		var pwg sync.WaitGroup
+		var pmu sync.Mutex
+		for vi := range c.Variants {
+			if c.Variants[vi].Rel != "" {
+				continue
+			}
+			pwg.Add(1)
+			go func(vi int) {
+				defer pwg.Done()
+				o, err := r.runVariant(c, c.Variants[vi])
+				pmu.Lock()
+				pre[vi] = &preRun{o, err}
+				pmu.Unlock()
+			}(vi)
+		}
+		pwg.Wait()
+	}
 	for vi := range c.Variants {
 		v := c.Variants[vi]
 		if v.Rel != "" {
@@ -641,7 +781,13 @@ func (r *runner) runCase(c *Case) {
 			}
 			c.Variants[vi] = v
 		}
-		o, err := r.runVariant(c, v)
+		var o variantOut
+		var err error
+		if p := pre[vi]; p != nil {
+			o, err = p.o, p.err
+		} else {
+			o, err = r.runVariant(c, v)
+		}
 		if err != nil {
 			r.res.Skip("%s/%s: build failed: %v", c.ID, v.Label, err)
 			continue
@@ -675,9 +821,28 @@ func (r *runner) runCase(c *Case) {
 			if maxInt == 0 {
 				maxInt = int(config.DefaultRecursionFirewallMaxInternalQueries)
 			}
-			if o.Q1.Packets > maxOut {
+			if o.Q1.Packets > maxOut && c.IPv6 && o.Q1.Packets-o.Q1.After <= maxOut {
+				// the excess is work done after the reply: the digest names the clause, not the sampled topology
+				r.res.Violate("detached/outbound", fmt.Sprintf("WithinBudget (detached helper lookups included): %d upstream packets reached the scripted servers for ONE request tree, %d of them after the client had its reply (detached IPv6 nameserver-address jobs, tree finished after %d ms), max_outbound_queries=%d (enforce, ipv6access on) on topology %s {%s} variant %s",
+					o.Q1.Packets, o.Q1.After, o.Q1.TreeMs, maxOut, c.ID, c.shape(), v.Label), rp)
+			} else if o.Q1.Packets > maxOut {
 				r.res.Violate("budget/"+key, fmt.Sprintf("WithinBudget: %d upstream packets (%d over TCP) reached the scripted servers for one client query, max_outbound_queries=%d (enforce) on topology %s",
 					o.Q1.Packets, o.Q1.TCP, maxOut, c.ID), rp)
+			}
+			if c.IPv6 {
+				r.res.Count("v6_enforce_runs", 1)
+				r.res.Count("v6_packets_after_reply", o.Q1.After)
+				if o.Q1.Unfinished {
+					r.res.DriftNote("%s: detached helper jobs still running %d ms after the query (counted so far: %d packets)", key, o.Q1.TreeMs, o.Q1.Packets)
+				}
+				if o.Q1.SubQ > maxInt {
+					k := "subq/" + key
+					if o.Q1.SubQAt <= maxInt {
+						k = "detached/internal"
+					}
+					r.res.Violate(k, fmt.Sprintf("WithinBudget (nameserver-address and detached helper lookups included): %d distinct nameserver-address / alias questions other than the client's own reached the scripted servers for ONE request tree (each needs an internal sub-query of its own; %d of them only after the reply: %v), max_internal_queries=%d (enforce, ipv6access on) on topology %s {%s} variant %s",
+						o.Q1.SubQ, o.Q1.SubQ-o.Q1.SubQAt, o.Q1.SubQs, maxInt, c.ID, c.shape(), v.Label), rp)
+				}
 			}
 			if o.Q1.Got && o.Q1.Hops > maxInt {
 				r.res.Violate("internal/"+key, fmt.Sprintf("WithinBudget: the reply follows %d cross-zone alias hops (one internal sub-query each) with max_internal_queries=%d (enforce) on topology %s",
@@ -696,6 +861,10 @@ func (r *runner) runCase(c *Case) {
 					r.res.Violate(fmt.Sprintf("ede-mode/%s/%d", key, qi), fmt.Sprintf("ShadowEqualsOff: a recursion-work budget EDE reached client %d in mode %s on topology %s", qi+1, v.Mode, c.ID), rp)
 				}
 			}
+		}
+		if c.IPv6 && v.Mode != "enforce" {
+			r.res.Count("v6_free_runs", 1)
+			r.res.Count("v6_free_packets_after_reply", o.Q1.After)
 		}
 		if v.NoEDNS && (o.Q1.OPT || o.Q2.OPT) {
 			r.res.DriftNote("%s: OPT in reply to a non-EDNS client", key)
@@ -812,6 +981,9 @@ func TestTopologies(t *testing.T) {
 	}
 	if in.MarginMs == 0 {
 		in.MarginMs = 6000
+	}
+	if in.TreeMs == 0 {
+		in.TreeMs = 12000
 	}
 	r := &runner{in: &in, res: res, t: t}
 	jobs := make(chan *Case)
